@@ -121,6 +121,51 @@ func runC13(c *core.Ctx) {
 	}
 	c13Sequences(c)
 	c13Resign(c)
+	c13HeldOutputs(c)
+}
+
+// c13HeldOutputs: every ordered pair and triple of message kinds produced one after the other on one ServiceProvider; each output is
+// verified only after all of them exist, on exactly the value that was returned (a form still held by a caller when the next one is made).
+func c13HeldOutputs(c *core.Ctx) {
+	c.Group("outputs-verified-after-later-calls")
+	kinds := c13Messages
+	for _, kn := range []string{"sp2048", "spec256"} {
+		method := dsig.RSASHA256SignatureMethod
+		if kn == "spec256" {
+			method = dsig.ECDSASHA256SignatureMethod
+		}
+		var seqs [][]int
+		for a := range kinds {
+			for b := range kinds {
+				seqs = append(seqs, []int{a, b})
+				seqs = append(seqs, []int{a, b, a})
+			}
+		}
+		for _, sq := range seqs {
+			kn, method, sq := kn, method, sq
+			var names []string
+			for _, i := range sq {
+				names = append(names, kinds[i])
+			}
+			key := fmt.Sprintf("held/key=%s/%s", kn, strings.Join(names, ">"))
+			c.Case(key, func(t *core.T) {
+				t.NonTrivial()
+				sp := harness.NewSP(harness.SPOpt{SPKey: kn, SignMethod: method})
+				var later []func()
+				for step, i := range sq {
+					c13EmitHold(t, sp, kn, method, kinds[i], fmt.Sprintf("relay-%d", step), key, &later)
+				}
+				for step, v := range later {
+					before := t.Failed()
+					v()
+					if !before && t.Failed() {
+						t.Fail("C13/held-output/"+kinds[sq[step]]+"/altered-by-a-later-call", "%s: output %d (%s) no longer verifies after the later messages were produced", key, step+1, kinds[sq[step]])
+						return
+					}
+				}
+			})
+		}
+	}
 }
 
 // c13Resign: the exported Sign* methods applied to a message that is already signed (after the application changed a field, or simply
@@ -310,6 +355,12 @@ func c13One(t *core.T, kn, method, msg, relay, epq string, opt int, key string) 
 
 // c13Emit makes sp (key fixture kn, configured method) emit one message and verifies it as a peer would.
 func c13Emit(t *core.T, sp *saml.ServiceProvider, kn, method, msg, relay, key string) {
+	c13EmitHold(t, sp, kn, method, msg, relay, key, nil)
+}
+
+// c13EmitHold is c13Emit with the verification optionally postponed: with hold != nil the message is produced now and the closure that
+// verifies exactly what was returned (the same byte slice / URL / element, not a copy) is appended to *hold for the caller to run later.
+func c13EmitHold(t *core.T, sp *saml.ServiceProvider, kn, method, msg, relay, key string, hold *[]func()) {
 	kp := samlgen.Key(kn)
 	_, isRSA := kp.Cert.PublicKey.(*rsa.PublicKey)
 	fits := (isRSA && strings.Contains(method, "#rsa-")) || (!isRSA && strings.Contains(method, "#ecdsa-"))
@@ -344,146 +395,159 @@ func c13Emit(t *core.T, sp *saml.ServiceProvider, kn, method, msg, relay, key st
 	})
 	t.Impl(1)
 	t.Compared()
-	if p != "" {
-		t.Fail(fk("panic@"+p[strings.LastIndex(p, "@")+1:]), "panicked: %s", p)
-		return
-	}
-	if !fits {
-		t.Modelled(core.MustReject)
-		t.Outcome("refused")
-		if err == nil {
-			t.Fail(fk("mismatched-method-not-refused"), "signature method %s does not fit key %s (or is unknown) but a message was produced", method, kn)
-		}
-		return
-	}
-	t.Modelled(core.MustAccept)
-	if err != nil {
-		t.Fail(fk("constructor-error"), "method %s with key %s: %v", method, kn, err)
-		return
-	}
-	t.Outcome("signed")
-
-	// the certificate a peer would use: from the published metadata, serialised and re-parsed
-	mb, merr := xml.Marshal(sp.Metadata())
-	var md saml.EntityDescriptor
-	if merr == nil {
-		merr = xml.Unmarshal(mb, &md)
-	}
-	if merr != nil || len(md.SPSSODescriptors) != 1 {
-		t.Fail(fk("metadata"), "SP metadata does not round-trip: %v", merr)
-		return
-	}
-	sd := md.SPSSODescriptors[0]
-	var cert *x509.Certificate
-	for _, kd := range sd.KeyDescriptors {
-		if kd.Use == "signing" && len(kd.KeyInfo.X509Data.X509Certificates) > 0 {
-			der, derr := base64.StdEncoding.DecodeString(strings.Join(strings.Fields(kd.KeyInfo.X509Data.X509Certificates[0].Data), ""))
-			if derr == nil {
-				// the descriptor may carry leaf + intermediates concatenated; the leaf is first
-				if cs, perr := x509.ParseCertificates(der); perr == nil && len(cs) > 0 {
-					cert = cs[0]
-				}
-			}
-		}
-	}
-	if cert == nil {
-		t.Fail(fk("metadata-no-signing-certificate"), "published metadata carries no usable signing certificate")
-		return
-	}
-	if !cert.Equal(kp.Cert) {
-		t.Fail(fk("metadata-wrong-certificate"), "published signing certificate is not the SP's certificate")
-	}
-
-	if msg == "authn-redirect" {
-		raw := u.RawQuery
-		t.Input("url", u.String())
-		i := strings.Index(raw, "SAMLRequest=")
-		j := strings.Index(raw, "&Signature=")
-		if i < 0 || j < 0 || j < i {
-			t.Fail(fk("no-signature-parameter"), "no SAMLRequest=...&Signature= in %q", truncStr(raw, 200))
+	verify := func() {
+		if p != "" {
+			t.Fail(fk("panic@"+p[strings.LastIndex(p, "@")+1:]), "panicked: %s", p)
 			return
 		}
-		signed := raw[i:j]
-		sigB64, _ := url.QueryUnescape(raw[j+len("&Signature="):])
-		if k := strings.Index(sigB64, "&"); k >= 0 {
-			sigB64 = sigB64[:k]
-		}
-		sig, derr := base64.StdEncoding.DecodeString(sigB64)
-		if derr != nil {
-			t.Fail(fk("signature-not-base64"), "%v", derr)
+		if !fits {
+			t.Modelled(core.MustReject)
+			t.Outcome("refused")
+			if err == nil {
+				t.Fail(fk("mismatched-method-not-refused"), "signature method %s does not fit key %s (or is unknown) but a message was produced", method, kn)
+			}
 			return
 		}
-		// shape: SAMLRequest=..[&RelayState=..]&SigAlg=..
-		parts := strings.Split(signed, "&")
-		okShape := strings.HasPrefix(parts[0], "SAMLRequest=") && strings.HasPrefix(parts[len(parts)-1], "SigAlg=") &&
-			(len(parts) == 2 && relay == "" || len(parts) == 3 && strings.HasPrefix(parts[1], "RelayState=") && relay != "")
-		if !okShape {
-			t.Fail(fk("signed-octets-shape"), "signed octets are not SAMLRequest=..[&RelayState=..]&SigAlg=..: %q", truncStr(signed, 200))
+		t.Modelled(core.MustAccept)
+		if err != nil {
+			t.Fail(fk("constructor-error"), "method %s with key %s: %v", method, kn, err)
+			return
 		}
-		alg, _ := url.QueryUnescape(strings.TrimPrefix(parts[len(parts)-1], "SigAlg="))
-		if alg != method {
-			t.Fail(fk("sigalg"), "SigAlg %q, configured %q", alg, method)
-		}
-		if !verifyDetached(cert, method, []byte(signed), sig) {
-			whole := verifyDetached(cert, method, []byte(raw[:j]), sig)
-			f := "signature-does-not-verify"
-			if whole && i > 0 {
-				f = "signature-covers-preexisting-query"
-			}
-			t.Fail(fk(f), "signature over the octets %q... does not verify under the published certificate (verifies over the whole query prefix incl. pre-existing parameters: %v)", truncStr(signed, 60), whole)
-		}
-		return
-	}
+		t.Outcome("signed")
 
-	// XML-level signatures
-	param := "SAMLRequest"
-	if strings.HasPrefix(msg, "logoutresp") {
-		param = "SAMLResponse"
-	}
-	if u != nil {
-		keys, vals, _ := splitQuery(u.RawQuery)
-		for i, k := range keys {
-			if k == param {
-				raw, derr := base64.StdEncoding.DecodeString(vals[i])
+		// the certificate a peer would use: from the published metadata, serialised and re-parsed
+		mb, merr := xml.Marshal(sp.Metadata())
+		var md saml.EntityDescriptor
+		if merr == nil {
+			merr = xml.Unmarshal(mb, &md)
+		}
+		if merr != nil || len(md.SPSSODescriptors) != 1 {
+			t.Fail(fk("metadata"), "SP metadata does not round-trip: %v", merr)
+			return
+		}
+		sd := md.SPSSODescriptors[0]
+		var cert *x509.Certificate
+		for _, kd := range sd.KeyDescriptors {
+			if kd.Use == "signing" && len(kd.KeyInfo.X509Data.X509Certificates) > 0 {
+				der, derr := base64.StdEncoding.DecodeString(strings.Join(strings.Fields(kd.KeyInfo.X509Data.X509Certificates[0].Data), ""))
 				if derr == nil {
-					if x, ierr := inflate(raw); ierr == nil {
-						el = samlgen.Parse(x)
+					// the descriptor may carry leaf + intermediates concatenated; the leaf is first
+					if cs, perr := x509.ParseCertificates(der); perr == nil && len(cs) > 0 {
+						cert = cs[0]
 					}
 				}
 			}
 		}
-	} else if page != nil {
-		f, ferr := htmlform.Parse(page)
-		if ferr == nil {
-			if raw, derr := base64.StdEncoding.DecodeString(f.Fields[param]); derr == nil {
-				el = samlgen.Parse(raw)
+		if cert == nil {
+			t.Fail(fk("metadata-no-signing-certificate"), "published metadata carries no usable signing certificate")
+			return
+		}
+		if !cert.Equal(kp.Cert) {
+			t.Fail(fk("metadata-wrong-certificate"), "published signing certificate is not the SP's certificate")
+		}
+
+		if msg == "authn-redirect" {
+			raw := u.RawQuery
+			t.Input("url", u.String())
+			i := strings.Index(raw, "SAMLRequest=")
+			j := strings.Index(raw, "&Signature=")
+			if i < 0 || j < 0 || j < i {
+				t.Fail(fk("no-signature-parameter"), "no SAMLRequest=...&Signature= in %q", truncStr(raw, 200))
+				return
+			}
+			signed := raw[i:j]
+			sigB64, _ := url.QueryUnescape(raw[j+len("&Signature="):])
+			if k := strings.Index(sigB64, "&"); k >= 0 {
+				sigB64 = sigB64[:k]
+			}
+			sig, derr := base64.StdEncoding.DecodeString(sigB64)
+			if derr != nil {
+				t.Fail(fk("signature-not-base64"), "%v", derr)
+				return
+			}
+			// shape: SAMLRequest=..[&RelayState=..]&SigAlg=..
+			parts := strings.Split(signed, "&")
+			okShape := strings.HasPrefix(parts[0], "SAMLRequest=") && strings.HasPrefix(parts[len(parts)-1], "SigAlg=") &&
+				(len(parts) == 2 && relay == "" || len(parts) == 3 && strings.HasPrefix(parts[1], "RelayState=") && relay != "")
+			if !okShape {
+				t.Fail(fk("signed-octets-shape"), "signed octets are not SAMLRequest=..[&RelayState=..]&SigAlg=..: %q", truncStr(signed, 200))
+			}
+			alg, _ := url.QueryUnescape(strings.TrimPrefix(parts[len(parts)-1], "SigAlg="))
+			if alg != method {
+				t.Fail(fk("sigalg"), "SigAlg %q, configured %q", alg, method)
+			}
+			if !verifyDetached(cert, method, []byte(signed), sig) {
+				whole := verifyDetached(cert, method, []byte(raw[:j]), sig)
+				f := "signature-does-not-verify"
+				if whole && i > 0 {
+					f = "signature-covers-preexisting-query"
+				}
+				t.Fail(fk(f), "signature over the octets %q... does not verify under the published certificate (verifies over the whole query prefix incl. pre-existing parameters: %v)", truncStr(signed, 60), whole)
+			}
+			return
+		}
+
+		// XML-level signatures
+		param := "SAMLRequest"
+		if strings.HasPrefix(msg, "logoutresp") {
+			param = "SAMLResponse"
+		}
+		if u != nil {
+			keys, vals, _ := splitQuery(u.RawQuery)
+			for i, k := range keys {
+				if k == "RelayState" && vals[i] != relay {
+					t.Fail(fk("url-is-not-the-one-for-this-call"), "the URL carries RelayState %q, this call was made with %q", truncStr(vals[i], 40), truncStr(relay, 40))
+				}
+				if k == param {
+					raw, derr := base64.StdEncoding.DecodeString(vals[i])
+					if derr == nil {
+						if x, ierr := inflate(raw); ierr == nil {
+							el = samlgen.Parse(x)
+						}
+					}
+				}
+			}
+		} else if page != nil {
+			f, ferr := htmlform.Parse(page)
+			if ferr == nil && f.Fields["RelayState"] != relay && !strings.ContainsAny(relay, "\r\n\x00") {
+				t.Fail(fk("form-is-not-the-one-for-this-call"), "the form carries RelayState %q, this call was made with %q", truncStr(f.Fields["RelayState"], 40), truncStr(relay, 40))
+			}
+			if ferr == nil {
+				if raw, derr := base64.StdEncoding.DecodeString(f.Fields[param]); derr == nil {
+					el = samlgen.Parse(raw)
+				}
+			}
+		} else if el != nil {
+			// ArtifactResolve travels inside a SOAP body: take the wire form
+			wire := samlgen.Parse(samlgen.Doc(el))
+			if ars := findNS(wire, samlgen.NSProtocol, "ArtifactResolve"); len(ars) == 1 {
+				el = ars[0]
+			} else {
+				el = nil
 			}
 		}
-	} else if el != nil {
-		// ArtifactResolve travels inside a SOAP body: take the wire form
-		wire := samlgen.Parse(samlgen.Doc(el))
-		if ars := findNS(wire, samlgen.NSProtocol, "ArtifactResolve"); len(ars) == 1 {
-			el = ars[0]
-		} else {
-			el = nil
+		if el == nil {
+			t.Fail(fk("undecodable"), "cannot recover the emitted element from its wire form")
+			return
 		}
+		n, ok, alg, certs, verr := verifyEnveloped(el, []*x509.Certificate{cert}, samlgen.T0)
+		if n != 1 {
+			t.Fail(fk("unsigned-or-multiply-signed"), "emitted %s carries %d enveloped signatures although signing is configured", el.Tag, n)
+			return
+		}
+		if !ok {
+			t.Fail(fk("xml-signature-does-not-verify"), "enveloped signature on %s does not verify under the published certificate: %s", el.Tag, verr)
+			t.Input("element", string(samlgen.Doc(el.Copy())))
+		}
+		if alg != method {
+			t.Fail(fk("xml-signature-method"), "SignatureMethod %q, configured %q", alg, method)
+		}
+		_ = certs
+		_ = time.Now
 	}
-	if el == nil {
-		t.Fail(fk("undecodable"), "cannot recover the emitted element from its wire form")
+	if hold != nil {
+		*hold = append(*hold, verify)
 		return
 	}
-	n, ok, alg, certs, verr := verifyEnveloped(el, []*x509.Certificate{cert}, samlgen.T0)
-	if n != 1 {
-		t.Fail(fk("unsigned-or-multiply-signed"), "emitted %s carries %d enveloped signatures although signing is configured", el.Tag, n)
-		return
-	}
-	if !ok {
-		t.Fail(fk("xml-signature-does-not-verify"), "enveloped signature on %s does not verify under the published certificate: %s", el.Tag, verr)
-		t.Input("element", string(samlgen.Doc(el.Copy())))
-	}
-	if alg != method {
-		t.Fail(fk("xml-signature-method"), "SignatureMethod %q, configured %q", alg, method)
-	}
-	_ = certs
-	_ = time.Now
+	verify()
 }
